@@ -786,7 +786,7 @@ func GetDeleteWriteChangelogItems(
 			case storage.OnDuplicateInsertIgnore:
 				// If the tuple exists and the condition is the same, we can ignore it.
 				// We need to use its serialized text instead of reflect.DeepEqual to avoid comparing internal values.
-				if proto.Equal(existingTuple.GetKey().GetCondition(), tk.GetCondition()) {
+				if SameCondition(existingTuple.GetKey().GetCondition(), tk.GetCondition()) {
 					continue
 				}
 				// If tuple conditions are different, we throw an error.
@@ -1199,4 +1199,17 @@ func AddFromUlid(sb sq.SelectBuilder, fromUlid string, sortDescending bool) sq.S
 		return sb.Where(sq.Lt{"ulid": fromUlid})
 	}
 	return sb.Where(sq.Gt{"ulid": fromUlid})
+}
+
+// SameCondition returns true if two relationship conditions are identical. A condition read back
+// from the database always carries a (possibly empty) context, whereas a request may leave the
+// context unset: an absent context and an empty one are the same value.
+func SameCondition(a, b *openfgav1.RelationshipCondition) bool {
+	if a.GetName() != b.GetName() {
+		return false
+	}
+	if len(a.GetContext().GetFields()) == 0 && len(b.GetContext().GetFields()) == 0 {
+		return true
+	}
+	return proto.Equal(a.GetContext(), b.GetContext())
 }
